@@ -60,15 +60,17 @@ impl DataItem for TimeItem {
 
         let calculated_right = Duration::seconds(right.num_seconds_from_midnight() as i64);
 
-        if is_negative {
-            return Some(Rc::new(TimeItem(self.0 - calculated_right, self.1.clone())));
-        }
-        
-        match operation_type {
-            OperationType::Add => Some(Rc::new(TimeItem(self.0 + calculated_right, self.1.clone()))),
-            OperationType::Sub => Some(Rc::new(TimeItem(self.0 - calculated_right, self.1.clone()))),
-            _ => None
-        }
+        let moved = match (is_negative, operation_type) {
+            (true, _) | (false, OperationType::Sub) => self.0 - calculated_right,
+            (false, OperationType::Add) => self.0 + calculated_right,
+            _ => return None
+        };
+
+        /* A time is a wall clock: moving it past midnight leaves it on the day it started from, in its own zone */
+        let offset = Duration::minutes(self.1.offset as i64);
+        let local_day = (self.0 + offset).date();
+        let wall_clock = (moved + offset).time();
+        Some(Rc::new(TimeItem(NaiveDateTime::new(local_day, wall_clock) - offset, self.1.clone())))
     }
     
     fn get_number(&self, _: &dyn DataItem) -> f64 {
